@@ -126,6 +126,14 @@ type EPtr struct {
 }
 type ESlice []int
 
+// ESelf names itself (eventbus.TypeNamer) from its value: one Go type, many
+// event type names.  Routing goes by the Go type.
+type ESelf struct {
+	ID int `json:"id"`
+}
+
+func (e ESelf) EventTypeName() string { return "busmodel.self." + strconv.Itoa(e.ID%7) }
+
 func regLocalA() {
 	type Local struct {
 		ID int `json:"id"`
@@ -145,6 +153,7 @@ func registerSpecials() {
 	register("EStr", func(id int) EStr { return EStr(strconv.Itoa(id)) }, func(e EStr) int { n, _ := strconv.Atoi(string(e)); return n })
 	register("EPtr", func(id int) *EPtr { return &EPtr{ID: id} }, func(e *EPtr) int { return e.ID })
 	register("ESlice", func(id int) ESlice { return ESlice{id} }, func(e ESlice) int { return e[0] })
+	register("ESelf", func(id int) ESelf { return ESelf{ID: id} }, func(e ESelf) int { return e.ID })
 	regLocalA()
 	regLocalB()
 }
